@@ -89,6 +89,13 @@ Fixpoint insert_by {A} (lt : A -> A -> bool) (x : A) (l : list A) : list A :=
 Definition sort_by {A} (lt : A -> A -> bool) (l : list A) : list A :=
   fold_right (insert_by lt) [] l.
 
+Fixpoint list_eqb {T} (eqb : T -> T -> bool) (l m : list T) : bool :=
+  match l, m with
+  | [], [] => true
+  | x :: xs, y :: ys => eqb x y && list_eqb eqb xs ys
+  | _, _ => false
+  end.
+
 (* ceil(log2 n) for n >= 1, and 0 for n <= 1 *)
 Definition clog2 (n : Z) : Z := if n <=? 1 then 0 else Z.log2_up n.
 Definition cdiv (x y : Z) : Z := - ((- x) / y).
@@ -106,6 +113,19 @@ Definition Z_of_string (s : string) : option Z :=
   | _ => option_map Z.of_int (NilZero.int_of_string s)
   end.
 Definition nat_to_string (n : nat) : string := Z_to_string (Z.of_nat n).
+
+Definition list_eqb_str := list_eqb String.eqb.
+Definition list_eqb_Z := list_eqb Z.eqb.
+
+(* free text inside an s-expression atom: blanks -> '~', parentheses -> brackets *)
+Fixpoint sanitize (s : string) : string :=
+  match s with
+  | EmptyString => EmptyString
+  | String c r =>
+      String (if Ascii.eqb c " "%char then "~"%char
+              else if Ascii.eqb c "("%char then "["%char
+              else if Ascii.eqb c ")"%char then "]"%char else c) (sanitize r)
+  end.
 
 Fixpoint concat_with (sep : string) (l : list string) : string :=
   match l with
